@@ -10,6 +10,7 @@ import tlexport.key_derivator as key_derivator
 import tlexport.cipher_suite_parser as cipher_suite_parser
 from tlexport.decryptor import Decryptor
 from tlexport.output_builder import OutputBuilder
+from tlexport import _verif
 
 from ipaddress import IPv6Address, IPv4Address
 
@@ -203,6 +204,9 @@ class Session:
         self.decryptor = Decryptor(cipher_suite["CryptoAlgo"][0], cipher_suite["Mode"][0], cipher_suite["MAC"], keys,
                                    self.tls_version, cipher_suite["KeyLength"], cipher_suite["MAC"].digest_size,
                                    cipher_suite["TagLength"], block_size, self.extensions, self.compression_method)
+        if _verif.on():
+            _verif.emit("keys", proto="tls", ver=self.tls_version.name, suite=bytes(server_cipher_suite),
+                        cr=client_random, sr=server_random, etm=self.decryptor.encrypt_then_mac, keys=_verif.keys_of(self.decryptor))
 
     # gets the session metadata from first session packet
     def set_client_and_server_ports(self, packet: Packet, server_ports):
@@ -252,19 +256,23 @@ class Session:
 
         if packet.ip_src == self.server_ip and packet.sport == self.server_port:
             if sequence in self.seen_packets_server:
+                _verif.emit("seg", dir="s", seq=sequence, len=len(packet.tls_data), accepted=False, ts=repr(packet.timestamp))
                 return
 
             self.seen_packets_server.append(sequence)
 
             self.packet_buffer.append(packet)
+            _verif.emit("seg", dir="s", seq=sequence, len=len(packet.tls_data), accepted=True, ts=repr(packet.timestamp))
 
         else:
             if sequence in self.seen_packets_client:
+                _verif.emit("seg", dir="c", seq=sequence, len=len(packet.tls_data), accepted=False, ts=repr(packet.timestamp))
                 return
 
             self.seen_packets_client.append(sequence)
 
             self.packet_buffer.append(packet)
+            _verif.emit("seg", dir="c", seq=sequence, len=len(packet.tls_data), accepted=True, ts=repr(packet.timestamp))
 
     def decrypt(self):
         print(f"[*] Decrypting session: [{self.binary_to_ip(self.server_ip)}:{self.server_port}-{self.binary_to_ip(self.client_ip)}:{self.client_port}]\n")
@@ -462,6 +470,10 @@ class Session:
 
                 if self.exp_meta:
                     self.application_traffic.append((record.raw, record, isserver))
+        _verif.emit("record", dir="s" if isserver else "c", rtype=record.record_type, len=len(record.raw),
+                    can=self.can_decrypt, chs=self.client_hello_seen, ccs_c=self.client_cipher_change,
+                    ccs_s=self.server_cipher_change, dec=self.decryptor is not None,
+                    ver=getattr(getattr(self, "tls_version", None), "name", None), napp=len(self.application_traffic))
 
     def binary_to_ip(self, ip_addr):
         if self.ipv6:
@@ -475,6 +487,7 @@ class Session:
         for packet in self.packet_buffer:
             if packet.ip_src == self.server_ip and packet.sport == self.server_port:
                 self.server_packet_buffer.append(packet)
+                _verif.emit("feed", dir="s", seq=packet.seq, len=len(packet.tls_data))
                 self.extract_server_buf()
 
                 for record in self.server_tls_records:
@@ -483,6 +496,7 @@ class Session:
                 self.server_tls_records.clear()
             else:
                 self.client_packet_buffer.append(packet)
+                _verif.emit("feed", dir="c", seq=packet.seq, len=len(packet.tls_data))
                 self.extract_client_buf()
 
                 for record in self.client_tls_records:
@@ -539,6 +553,7 @@ class Session:
 
                 tls_record = TlsRecord(binary, metadata, True)
                 self.server_tls_records.append(tls_record)
+                _verif.emit("release", dir="s", rtype=binary[0], len=len(binary), seqs=[p.seq for p in metadata], ts=[repr(p.timestamp) for p in metadata])
 
                 index += record_len
             self.server_packet_buffer.clear()
@@ -592,6 +607,7 @@ class Session:
 
                 tls_record = TlsRecord(binary, metadata, True)
                 self.client_tls_records.append(tls_record)
+                _verif.emit("release", dir="c", rtype=binary[0], len=len(binary), seqs=[p.seq for p in metadata], ts=[repr(p.timestamp) for p in metadata])
 
                 index += record_len
             self.client_packet_buffer.clear()
